@@ -172,6 +172,9 @@ pub struct NetCfg {
     pub ordered_accept: bool,
     /// never deliver anything automatically on these pipes (stream id, sender) - stalled reader/writer
     pub stall_budget: Vec<(u64, usize)>,
+    /// data of these pipes (stream id, sender) is only delivered by explicit `deliver_bytes` calls of
+    /// a script (exact chunk boundaries); FIN/RESET still flow by themselves
+    pub manual_pipes: Vec<(u64, usize)>,
 }
 
 impl Default for NetCfg {
@@ -182,6 +185,7 @@ impl Default for NetCfg {
             max_budget_grant: 64,
             ordered_accept: true,
             stall_budget: Vec::new(),
+            manual_pipes: Vec::new(),
         }
     }
 }
@@ -194,6 +198,7 @@ impl NetCfg {
             max_budget_grant: *rng.pick(&[1usize, 2, 3, 7, 16, 64, 1000, 100_000]),
             ordered_accept: true,
             stall_budget: Vec::new(),
+            manual_pipes: Vec::new(),
         }
     }
 }
@@ -420,7 +425,9 @@ impl NetInner {
                         v.push(NetAction::DeliverReset { id: *id, sender });
                     }
                     if p.delivered < p.sent.len() {
-                        v.push(NetAction::Deliver { id: *id, sender });
+                        if !self.cfg.manual_pipes.contains(&(*id, sender)) {
+                            v.push(NetAction::Deliver { id: *id, sender });
+                        }
                     } else if p.fin_sent && !p.fin_delivered && p.reset_sent.is_none() {
                         v.push(NetAction::DeliverFin { id: *id, sender });
                     }
